@@ -206,5 +206,10 @@ pub fn new_cursor(script: Vec<u64>, cont: Vec<u64>, reg: &Registry) -> Cursor {
 }
 
 pub fn make_timer(c: Cursor) -> impl Fn() -> u64 + Send + Sync + Clone {
-    move || c.st.read()
+    // capture the whole Cursor (edition-2021 closures would otherwise capture only
+    // the field `c.st`, and the closure's Clone would share the cursor)
+    move || {
+        let whole: &Cursor = &c;
+        whole.st.read()
+    }
 }
